@@ -52,3 +52,48 @@ Theorem C18_prefix_reparses : forall report g rest,
   /\ read_imports report (render_body g) = ROk (paths g) (render_body g) ENone.
 Proof. exact prefix_reparses. Qed.
 Print Assumptions C18_prefix_reparses.
+From Coq Require Import Sorting.Sorted.
+From GI Require Import Gen.ImportsConsts Imports.Build Imports.Scan Imports.ScanFacts.
+
+(* ---- the consumers of ReadImports: imports.ScanDir / ScanFiles (scan.go) *)
+
+(* neither can panic, whatever the directory contains *)
+Theorem C18_scan_total : forall tags entries,
+  scan_dir tags entries <> SPanic /\ scan_files tags entries <> SPanic.
+Proof. exact scan_total. Qed.
+Print Assumptions C18_scan_total.
+
+(* a directory whose considered entries are G-files: exactly the sorted sets of the unquoted
+   import paths of the selected files, tests apart; ErrNoGo when none is selected *)
+Theorem C18_scan_dir_complete : forall tags entries gs,
+  filter (considered tags) entries = map g_entry gs -> Forall gfile_ok gs ->
+  scan_dir tags entries = spec_scan tags false gs.
+Proof. exact scan_dir_complete. Qed.
+Print Assumptions C18_scan_dir_complete.
+
+Theorem C18_scan_files_complete : forall tags gs, Forall gfile_ok gs ->
+  scan_files tags (map g_entry gs) = spec_scan tags true gs.
+Proof. exact scan_files_complete. Qed.
+Print Assumptions C18_scan_files_complete.
+
+(* what "sorted set" means: strictly increasing in the byte-wise order, same elements *)
+Theorem C18_scan_result_sorted_set : forall l,
+  StronglySorted bytes_lt (set_of l) /\ (forall y, In y (set_of l) <-> In y l).
+Proof. exact set_of_spec. Qed.
+Print Assumptions C18_scan_result_sorted_set.
+
+(* files that are read without error and excluded by import "C" or +build contribute nothing *)
+Theorem C18_scan_frame : forall tags explicit f lits data l1 l2 imps tests num,
+  read_imports false (e_data f) = ROk lits data ENone ->
+  (needs_cgo lits && negb (tags cgo_tag) && negb (tags star) = true
+   \/ (explicit = false /\ should_build data tags = Some false)) ->
+  scan_loop tags explicit (l1 ++ f :: l2) imps tests num = scan_loop tags explicit (l1 ++ l2) imps tests num.
+Proof. exact scan_frame_files. Qed.
+Print Assumptions C18_scan_frame.
+
+(* a leading byte-order mark in any file changes nothing *)
+Theorem C18_scan_bom : forall tags f l1 l2, has_prefix bom (e_data f) = false ->
+  scan_dir tags (l1 ++ with_bom f :: l2) = scan_dir tags (l1 ++ f :: l2)
+  /\ scan_files tags (l1 ++ with_bom f :: l2) = scan_files tags (l1 ++ f :: l2).
+Proof. exact scan_bom. Qed.
+Print Assumptions C18_scan_bom.
